@@ -2,6 +2,7 @@ from checks import server_family
 from checks import c04
 from checks import c01
 from checks import c03
+from checks import c09
 
 
 def c08(ctx):
@@ -24,6 +25,7 @@ CHECKS = {
     "C01": c01.run,
     "C03": c03.run,
     "C04": c04.run,
+    "C09": c09.run,
     "C02": c02,
     "C06": c06,
     "C07": c07,
